@@ -47,12 +47,13 @@ type FnContract struct {
 	HArgs    map[string]string // role -> parameter name
 	Ops      string            // "all" or comma list of opcodes for harnesses that enumerate op
 	MayPanic bool
+	SiteAsserts map[string][]string // call site -> assertions that must hold when the call is made
 	Split    string // "<expr> <lo>..<hi>": ensures obligations are split by the value of expr
 	NoSafety bool              // implicit runtime-panic obligations are assumed (proved under another property)
 }
 
 var clauseKW = map[string]bool{"requires": true, "ensures": true, "panics": true, "onpanic": true, "assigns": true,
-	"modular": true, "trusted": true, "loop": true, "property": true, "case": true, "pure": true, "harness": true, "nosafety": true, "maypanic": true, "split": true}
+	"modular": true, "trusted": true, "loop": true, "property": true, "case": true, "pure": true, "harness": true, "nosafety": true, "maypanic": true, "split": true, "at": true, "ops": true}
 
 func (w *World) loadContracts() {
 	var paths []string
@@ -175,6 +176,20 @@ func (w *World) parseContractFile(pkgPath, file string) {
 		case "split":
 			cur.Split = rest
 			lastClause = nil
+		case "ops":
+			cur.Ops = rest
+			lastClause = nil
+		case "at":
+			// at <site> assert <expr>
+			if len(fields) < 4 || fields[2] != "assert" {
+				fail("%s:%d: malformed 'at' clause", file, ln+1)
+			}
+			if cur.SiteAsserts == nil {
+				cur.SiteAsserts = map[string][]string{}
+			}
+			body := strings.TrimSpace(rest[strings.Index(rest, " assert ")+8:])
+			cur.SiteAsserts[fields[1]] = append(cur.SiteAsserts[fields[1]], body)
+			lastClause = &cur.SiteAsserts[fields[1]][len(cur.SiteAsserts[fields[1]])-1]
 		case "trusted":
 			cur.Trusted = true
 			cur.Modular = true
@@ -1033,13 +1048,23 @@ func (e *CEnv) call(n *ast.CallExpr) TV {
 			for i := range e.post.Events {
 				if e.post.Events[i].Callee == name {
 					if found != nil {
-						fail("contract: callarg(%s) is ambiguous (more than one call)", name)
+						break // callarg refers to the FIRST call of that name
+					}
+					if false {
+						var ds []string
+						for _, ev := range e.post.Events {
+							ds = append(ds, fmt.Sprintf("%s/%d[g=%s]", ev.Callee, len(ev.Args), ev.Guard.Op))
+						}
+						fail("contract: callarg(%s) is ambiguous (more than one call): %v", name, ds)
 					}
 					found = &e.post.Events[i]
 				}
 			}
 			if found == nil || idx >= len(found.Args) {
 				// no such call: an unconstrained value (the accompanying ncalls clause fails)
+				if idx == 0 {
+					return TV{RefV{x.freshVar("nocall", BV(32))}, nil}
+				}
 				return TV{Scalar{x.freshVar("nocall", BV(64))}, nil}
 			}
 			t := found.Args[idx]
